@@ -75,12 +75,16 @@ def Rep64 (r : Req) : Prop :=
 
 instance (r : Req) : Decidable (Rep64 r) := by unfold Rep64; infer_instance
 
-/-- the property as it should hold of the compiled code: for every representable request the real
-    (wrap-around) checker accepts exactly the in-bounds requests -/
-def checkSCS_iff_Statement : Prop :=
+/-- the property as it should hold of the compiled code, for a given reading `A` of the
+    arithmetic in check_EEDGE: for every representable request the checker accepts exactly the
+    in-bounds requests -/
+def checkSCS_iff_StatementFor (A : Arith) : Prop :=
   ∀ (c : Ctx) (r : Req), r.dims ≠ [] → (∀ d ∈ r.dims, 0 ≤ d.shape) → Rep64 r →
     (r.hasStride = true → c.needCount = true) →
-    (checkSCS c64 c r = NC_NOERR ↔ InBounds c r)
+    (checkSCS A c r = NC_NOERR ↔ InBounds c r)
+
+/-- … of the ORIGINAL code (sums and product in wrap-around 64-bit arithmetic) -/
+def checkSCS_iff_Statement : Prop := checkSCS_iff_StatementFor c64
 
 def f15Ctx : Ctx := { strict := false, isRec := false, isRead := false, classic := false, needCount := true }
 /-- F15: one dimension of extent 10, start 0, count 3, stride 2^62 -/
@@ -106,6 +110,26 @@ theorem checkSCS_iff_partial (c : Ctx) (r : Req) (hne : r.dims ≠ []) (hs : ∀
     (hstr : r.hasStride = true → c.needCount = true) (henv : NoOvf r) :
     checkSCS c64 c r = NC_NOERR ↔ InBounds c r := by
   rw [checkSCS_c64 c r henv]; exact checkSCS_iff_exact c r hne hs hstr
+
+/-- **the REPAIRED checker (patch F15-check_EEDGE.diff, tests written as `count > shape - start`
+    and `stride > (shape-1-start)/(count-1)`) satisfies the full statement**: no envelope -/
+theorem checkSCS_iff_repaired : checkSCS_iff_StatementFor divForm := by
+  intro c r hne hs _ hstr
+  rw [checkSCS_div c r]; exact checkSCS_iff_exact c r hne hs hstr
+
+/-- the repaired checker returns exactly the codes of the exact-integer checker (hence the
+    documented code with the documented precedence, `checkSCS_error_documented`) -/
+theorem checkSCS_repaired_eq_exact (c : Ctx) (r : Req) : checkSCS divForm c r = checkSCS exact c r :=
+  checkSCS_div c r
+
+/-- and nothing in it can overflow: the strided test is reached only with a non-negative dividend
+    and representable operands -/
+theorem repaired_no_overflow (s c sh : Int) (hs : 0 ≤ s) (hsh : fits64 sh) (hc : fits64 c)
+    (h0 : ¬ c > sh - s) (hc1 : c > 1) :
+    0 ≤ sh - 1 - s ∧ fits64 (sh - s) ∧ fits64 (sh - 1 - s) ∧ fits64 (c - 1) ∧ 0 < c - 1 :=
+  divForm_no_overflow s c sh hs hsh hc h0 hc1
+
+example : checkSCS divForm f15Ctx f15Req = NC_EEDGE := by decide
 
 /-- inside the envelope the compiled checker also returns the documented code -/
 theorem checkSCS_c64_eq_exact (c : Ctx) (r : Req) (henv : NoOvf r) :
@@ -258,6 +282,7 @@ def obligations : List String := [
   "checkSCS_iff_exact", "checkSCS_error_documented", "checkSCS_codes",
   "f15_accepted", "f15_not_inbounds", "f15_exact_rejects", "checkSCS_iff_counterexample",
   "checkSCS_iff_partial", "checkSCS_c64_eq_exact", "noOvf_of_small",
+  "checkSCS_iff_repaired", "checkSCS_repaired_eq_exact", "repaired_no_overflow",
   "accepted_inside", "accepted_inside_record", "rowMajor_inside",
   "zero_length_touches_nothing", "rejected_changes_nothing", "zero_length_put_changes_nothing",
   "accepted_put_changes_only_target", "accepted_put_changes_only_target_record"
